@@ -798,3 +798,99 @@ def r11_6(ctx):
 def r01_5(ctx):
     import rules_text
     rules_text.r16_4(ctx)
+
+
+@rule("C01", "R01.6", floor=4)
+def r01_6(ctx):
+    """pending-newline skeleton of the line processor: a separator is written exactly when the pending flag is set; the flag is only
+    ever `false` initially or `!has_tail` right before a content write; has_tail is true exactly when a terminating line was re-queued"""
+    lib = ctx.lib
+    ri = body(ctx, "pp_run_internal")
+    if not ri:
+        return
+    # the flag: the bool local whose true edge guards the separator writes
+    seps, contents = [], []
+    for bb, t in calls_to(ri, ROLE["write_output"]):
+        (seps if has_field(C.trace(ri, t["args"][1], through_fields=True), "line_ending") else contents).append((bb, t))
+    if len(seps) < 2 or len(contents) != 1:
+        ctx.violation(["write-shape"], "the line processor no longer has exactly one content write and two separator writes (%d / %d)" % (
+            len(contents), len(seps)), site=ctx.site(ri, 0))
+        return
+    flag = None
+    for l, decl in enumerate(ri.locals):
+        if decl["ty"] == "bool" and decl.get("name") and not ri.is_param(l):
+            fe = set()
+            for sbb in C.switches(ri):
+                c = C.switch_cond(ri, sbb)
+                if c.kind == "bool" and _is_local(ri, c, l):
+                    te = C.bool_edges(ri, sbb).get(True)
+                    if te is not None:
+                        fe.add(te)
+            if fe and all(C.guarded(ri, bb, fe) for bb, t in seps):
+                flag = (l, fe)
+    if flag is None:
+        ctx.violation(["no-pending-flag"], "the separator writes are not all guarded by one pending-newline flag", site=ctx.site(ri, seps[0][0]))
+        return
+    fl, fe = flag
+    ctx.ok("every separator write is guarded by the pending flag `%s`" % ri.local_name(fl), site=ctx.site(ri, seps[0][0]))
+    # assignments of the flag
+    cbb = contents[0][0]
+    bad = []
+    n_not = 0
+    for rec in ri.defs().get(fl, []):
+        if rec[0] != "assign":
+            bad.append("non-assignment def")
+            continue
+        rv = rec[3]["rv"]
+        if rv["k"] == "use" and C.op_const(rv["op"]) == "false":
+            continue
+        if rv["k"] == "unop" and rv["op"] == "Not":
+            n_not += 1
+            src = C.trace(ri, rv["a"])
+            tail_ok = all((l.kind == "const" and C.op_const(l.data) in ("true", "false")) for l in src) and src
+            # the assignment happens on the way to the content write (same is_execute / Some(to_write) region)
+            if not tail_ok or cbb not in ri.reachable(rec[1]) or ri.in_cycle(rec[1]) is False:
+                bad.append("pending := !x where x is not the has_tail flag, or not before the content write")
+            continue
+        bad.append(C.rv_str(rv))
+    if bad or n_not != 1:
+        ctx.violation(["flag-assignments", ";".join(bad)[:120]], "the pending-newline flag is assigned other than `false` / `!has_tail` (%s; %d negations)" % (bad, n_not),
+                      site=ctx.site(ri, cbb))
+    else:
+        ctx.ok("pending flag := false | !has_tail (once, before the content write)", site=ctx.site(ri, cbb))
+    # the in-loop separator precedes the content write; the content write is guarded by Some(to_write)
+    inloop = [bb for bb, t in seps if ri.in_cycle(bb)]
+    if len(inloop) == 1 and cbb in ri.reachable(inloop[0]) and inloop[0] not in ri.reachable(cbb, cut=out_edges(ri, [b2 for b2, t2 in calls_to(ri, ROLE["get_next_line"])])):
+        ctx.ok("the in-loop separator is written before the content of the same iteration", site=ctx.site(ri, inloop[0]))
+    else:
+        ctx.violation(["separator-order"], "the in-loop separator is no longer written before the content of the same iteration", site=ctx.site(ri, cbb))
+    # has_tail == true exactly on the path that re-queues the terminating line
+    stores = [bb for bb, si, st in ri.stmts() if st["k"] == "assign" and st["lhs"]["p"] and st["lhs"]["p"][-1].get("name") == "execute_tail_line"]
+    trues = [(rec[1], rec[3]["lhs"]["l"]) for l in range(len(ri.locals)) for rec in ri.defs().get(l, [])
+             if ri.locals[l]["ty"] == "bool" and ri.local_name(l) == "has_tail" and rec[0] == "assign" and rec[3]["rv"]["k"] == "use"
+             and C.op_const(rec[3]["rv"]["op"]) == "true"]
+    if trues and stores and all(any(tb in ri.reachable(sb) or tb == sb for sb in stores) for tb, _ in trues) and \
+            all(C.guarded(ri, tb, out_edges(ri, stores)) or tb in stores for tb, _ in trues):
+        ctx.ok("has_tail is set exactly where the terminating line is re-queued", site=ctx.site(ri, trues[0][0]))
+    else:
+        ctx.violation(["has_tail"], "has_tail is set on a path that does not re-queue the terminating line (a separator would be dropped or doubled)",
+                      site=ctx.site(ri, trues[0][0] if trues else 0))
+
+
+def _is_local(b, cond, l):
+    """does the bool switch test exactly local l (through copies)?"""
+    t = b.term(cond.bb)
+    op = t["discr"]
+    seen = set()
+    while op and op["k"] in ("copy", "move") and not op["pl"]["p"]:
+        x = op["pl"]["l"]
+        if x == l:
+            return True
+        if x in seen:
+            return False
+        seen.add(x)
+        ds = [r for r in b.defs().get(x, []) if r[0] == "assign"]
+        if len(ds) != 1 or ds[0][3]["rv"]["k"] != "use":
+            return False
+        op = ds[0][3]["rv"]["op"]
+    return False
